@@ -15,16 +15,56 @@ def gen_vectors(ctx, fam, npa=1, nra=1, deviations="{}", simulate=None, depth=No
     return r.vectors
 
 
-def sample_shapes(vectors, frac, seed):
-    """Keep every vector of a deterministic pseudo-random subset of the method shapes."""
+def combine_cases(ctx, vectors1, n, seed, fam="req"):
+    """n seeded two-attribute cases assembled from single-attribute vectors; TLC (Cases_HTTPTransport) computes
+    oracle and mechanism for them and checks the invariants."""
+    import random
+    rnd = random.Random(seed)
+    cases, seen = [], set()
+    key = "pa" if fam == "req" else "ra"
+    val = "pv" if fam == "req" else "rv"
+    tries = 0
+    while len(cases) < n and tries < 20 * n:
+        tries += 1
+        a, b = rnd.choice(vectors1), rnd.choice(vectors1)
+        c = {"pa": a["pa"], "ra": a["ra"], "tagged": False, "pv": a["pv"], "rv": a["rv"]}
+        c[key] = a[key] + b[key]
+        c[val] = a[val] + b[val]
+        k = core.canon(c)
+        if k in seen:
+            continue
+        seen.add(k)
+        cases.append(c)
+    r = ctx.gen("mc/Cases_HTTPTransport", "mc/Cases_HTTPTransport.cfg", consts={"NPA": 2 if fam == "req" else 1, "NRA": 1 if fam == "req" else 2, "Family": '"%s"' % fam},
+                files={"cases.ndjson": "".join(json.dumps(c) + "\n" for c in cases)}, label="Cases %s x2 (%d)" % (fam, len(cases)), timeout=1500)
+    out, seen = [], set()
+    for v in r.vectors:
+        k = case_key(v)
+        if k not in seen:       # several terminal states per case when the error name is a choice
+            seen.add(k)
+            out.append(v)
+    return out
+
+
+def sample_shapes(vectors, frac, seed, strata="fine"):
+    """Keep every vector of a seeded pseudo-random subset of the method shapes, stratified so that every
+    (nesting, rule, body-or-not, mode) combination keeps at least one shape."""
     if frac >= 1.0:
         return vectors
-    keep = []
+    def h(v):
+        return hashlib.sha1((hg.shape_key(v) + str(seed)).encode()).digest()
+    def stratum(v):
+        a = (v["pa"] if v.get("fam") == "req" else v["ra"])[0]
+        if strata == "coarse":      # what matters for code generation: nesting, location, mode, kind
+            return (a["nest"], a["loc"], a["mode"], a["kind"])
+        return (a["nest"], a["rule"], a["loc"] == "body", a["mode"], v.get("tagged", False))
+    best = {}
     for v in vectors:
-        h = hashlib.sha1((hg.shape_key(v) + str(seed)).encode()).digest()
-        if h[0] / 256.0 < frac:
-            keep.append(v)
-    return keep
+        s, d = stratum(v), h(v)
+        if s not in best or d < best[s][0]:
+            best[s] = (d, hg.shape_key(v))
+    forced = {k for _, k in best.values()}
+    return [v for v in vectors if h(v)[0] / 256.0 < frac or hg.shape_key(v) in forced]
 
 
 def scenario_for(v, sid, svc, meth):
